@@ -1,6 +1,7 @@
 mod c03;
 mod c10;
 mod drivers;
+mod enumx;
 mod fileck;
 mod fresh;
 mod iosim;
@@ -33,6 +34,7 @@ fn main() {
             let idx: usize = args.get(3).and_then(|s| s.parse().ok()).unwrap_or(0);
             match engine.as_str() {
                 "seqx" => seqx::worker(idx),
+                "enumx" => enumx::worker(idx),
                 _ => usage(),
             }
         }
@@ -69,6 +71,7 @@ fn main() {
             }
             let code = match v["engine"].as_str() {
                 Some("seqx") => seqx::replay(&v),
+                Some("enumx") => enumx::replay(&v),
                 _ => {
                     eprintln!("unknown engine in replay file");
                     2
@@ -91,6 +94,16 @@ fn run_check(id: &str, tier: Tier) -> i32 {
                 "hash-map iteration order inside the library fixed by the entropy seed (VERIF_SEED)".into(),
             ];
             seqx::explore(&mut c, id, "seqx");
+            c.finish()
+        }
+        "C08" => {
+            let mut c = Check::new(id, tier, "exploration");
+            c.assumptions = vec![
+                "bounded-exhaustive over inputs: every probe key and every pair of bounds of every kind for each shape in the catalogue (coverage.shapes)".into(),
+                "the reference filter over the reference ordered map is the oracle; seek may position at the key or, if absent, at the predecessor or successor".into(),
+                "strict profile (debug assertions, overflow checks); page size 1024 (quick), 1024 and 4096 (thorough)".into(),
+            ];
+            enumx::run(&mut c);
             c.finish()
         }
         _ => {
